@@ -38,6 +38,8 @@ pub struct Opts {
     pub log2_slots: u32,
     pub dedup: bool,
     pub max_samples: u64,
+    /// siblings are explored in parallel only at trace depth < par_depth
+    pub par_depth: usize,
 }
 
 impl Default for Opts {
@@ -49,6 +51,7 @@ impl Default for Opts {
             log2_slots: 22,
             dedup: true,
             max_samples: 6,
+            par_depth: 2,
         }
     }
 }
@@ -193,7 +196,9 @@ fn expand<W: World>(w: &mut W, trace: &mut Vec<W::Op>, remaining: u8, g: &Global
     }
     let mut pending: Vec<libc::pid_t> = Vec::new();
     for op in ops {
-        let run_async = (g.counters.get(C_RUNNING) as usize) < g.opts.procs;
+        // siblings run concurrently only near the root: many processes copy-on-write faulting the
+        // same parent's pages contend in the kernel, deeper levels are explored sequentially
+        let run_async = trace.len() < g.opts.par_depth && (g.counters.get(C_RUNNING) as usize) < g.opts.procs;
         if run_async {
             g.counters.add(C_RUNNING, 1);
         }
@@ -243,8 +248,11 @@ fn reap<O: Debug>(pid: libc::pid_t, g: &Globals, trace: &[O]) {
 }
 
 fn child<W: World>(w: &mut W, trace: &mut Vec<W::Op>, op: W::Op, remaining: u8, g: &Globals) -> i32 {
+    let timing = std::env::var("KV_TIMING").is_ok();
+    let t_start = Instant::now();
     let r = catch_unwind(AssertUnwindSafe(|| {
         let label = w.apply(&op);
+        let t_apply = t_start.elapsed();
         g.counters.add(C_TRANS, 1);
         trace.push(op.clone());
         if g.outcomes.insert(crate::hash_str(&label)) {
@@ -258,7 +266,11 @@ fn child<W: World>(w: &mut W, trace: &mut Vec<W::Op>, op: W::Op, remaining: u8, 
                 g.log(&json!({"t":"viol","key":k,"what":what,"trace":trace}));
             }
         }
+        let t_check = t_start.elapsed();
         let h = w.canon();
+        if timing {
+            eprintln!("timing depth={} apply={:?} check={:?} canon={:?}", trace.len(), t_apply, t_check - t_apply, t_start.elapsed() - t_check);
+        }
         let rem = remaining - 1;
         let v = if g.opts.dedup {
             g.visited.visit(h, rem)
@@ -333,4 +345,59 @@ pub fn run_into_ctx<W: World>(ctx: &mut crate::Ctx, w: &mut W, opts: &Opts, pref
         ctx.violation(k, what, json!({"world": prefix, "trace": trace}));
     }
     rep
+}
+
+/// Run `f` in a forked copy of this process and return the string it produces. The parent's
+/// state is untouched whatever `f` does (differential oracles: "what would a reindex / a cold
+/// cache / a restart give from exactly this state?").
+pub fn fork_eval(f: impl FnOnce() -> String) -> Result<String, String> {
+    let mut fds = [0i32; 2];
+    if unsafe { libc::pipe(fds.as_mut_ptr()) } != 0 {
+        return Err("pipe failed".into());
+    }
+    let pid = unsafe { libc::fork() };
+    if pid < 0 {
+        return Err("fork failed".into());
+    }
+    if pid == 0 {
+        unsafe { libc::close(fds[0]) };
+        let out = match catch_unwind(AssertUnwindSafe(f)) {
+            Ok(s) => s,
+            Err(_) => "\u{1}PANIC".to_string(),
+        };
+        let bytes = out.as_bytes();
+        let mut off = 0;
+        while off < bytes.len() {
+            let n = unsafe { libc::write(fds[1], bytes[off..].as_ptr() as *const libc::c_void, bytes.len() - off) };
+            if n <= 0 {
+                break;
+            }
+            off += n as usize;
+        }
+        unsafe {
+            libc::close(fds[1]);
+            libc::_exit(0)
+        };
+    }
+    unsafe { libc::close(fds[1]) };
+    let mut buf = Vec::new();
+    let mut chunk = [0u8; 65536];
+    loop {
+        let n = unsafe { libc::read(fds[0], chunk.as_mut_ptr() as *mut libc::c_void, chunk.len()) };
+        if n <= 0 {
+            break;
+        }
+        buf.extend_from_slice(&chunk[..n as usize]);
+    }
+    unsafe { libc::close(fds[0]) };
+    let mut status = 0;
+    unsafe { libc::waitpid(pid, &mut status, 0) };
+    if !(libc::WIFEXITED(status) && libc::WEXITSTATUS(status) == 0) {
+        return Err(format!("forked evaluation ended abnormally (status {status:#x})"));
+    }
+    let s = String::from_utf8_lossy(&buf).to_string();
+    if s == "\u{1}PANIC" {
+        return Err("forked evaluation panicked".into());
+    }
+    Ok(s)
 }
